@@ -7,7 +7,7 @@ import unicodedata
 import z3
 
 _CACHE = os.path.join(os.path.dirname(os.path.dirname(os.path.abspath(__file__))), "work",
-                      "charclass-%d.%d.%d.json" % sys.version_info[:3])
+                      "charclass2-%d.%d.%d.json" % sys.version_info[:3])
 MAXCP = 0x10FFFF
 
 
@@ -29,6 +29,15 @@ def _build():
     d["space"] = _ranges(lambda i: chr(i).isspace())
     d["digit"] = _ranges(lambda i: unicodedata.decimal(chr(i), None) is not None)
     d["alnum"] = _ranges(lambda i: chr(i).isalnum())
+
+    def intspace(i):
+        if 0xD800 <= i <= 0xDFFF:
+            return False
+        try:
+            return int(chr(i) + "1") == 1 and int("1" + chr(i)) == 1
+        except ValueError:
+            return False
+    d["intspace"] = _ranges(intspace)
     # digit blocks with their value offset: every Nd run is a multiple of 10 long, values 0..9 cyclic
     blocks = []
     for lo, hi in d["digit"]:
@@ -64,6 +73,7 @@ _D = _load()
 SPACE = [tuple(r) for r in _D["space"]]
 DIGIT = [tuple(r) for r in _D["digit"]]
 ALNUM = [tuple(r) for r in _D["alnum"]]
+INTSPACE = [tuple(r) for r in _D["intspace"]]      # what int(str) skips around the number (differs from str.isspace)
 DIGIT_BLOCKS = list(_D["digit_blocks"])
 WORD = sorted(ALNUM + [(0x5F, 0x5F)])
 
